@@ -144,6 +144,42 @@ def run(ctx):
                     parsed_for_variants.append((kind, m, doc))
             for q in (p, ip):
                 os.remove(q)
+    # ---- (a3) indexes larger than one BGZF block (> 64 KiB uncompressed) -------------------
+    big = [("tbi", 14, False, "far"), ("csi", 14, False, "many"), ("csi", rnd.choice([12, 14]), True, "many")]
+    if not ctx.quick:
+        big += [("tbi", 14, False, "many"), ("csi", 9, False, "far")]
+    for kind, ms, bcf, shape in big:
+        if shape == "far":
+            contigs = ["chrbig", "ctgZ"]
+            hdr = ["##contig=<ID=chrbig,length=536000000>", "##contig=<ID=ctgZ,length=1000>"] + hdr_tail
+            recs = ["chrbig\t100\t.\tA\tT\t.\tPASS\t.", f"chrbig\t{rnd.randint(400000000, 500000000)}\t.\tA\tT\t.\tPASS\t.", "ctgZ\t5\t.\tA\tT\t.\tPASS\t."]
+        else:
+            contigs = [f"scaffold_{j}" for j in range(1500)]
+            hdr = [f"##contig=<ID={c},length=100000>" for c in contigs] + hdr_tail
+            recs = [f"{c}\t{rnd.randint(1, 90000)}\t.\tA\tT\t.\tPASS\t." for c in contigs if rnd.random() < 0.9]
+        text = vcfgen.vcf_text(hdr, recs)
+        p = vcfgen.make_indexed(tmp, "c09big", text, kind=kind, min_shift=ms, bcf=bcf)
+        ip = vcfgen.index_path(p)
+        raw = gzip.open(ip).read()
+        doc = dict(origin="htslib-large", kind=kind, min_shift=ms, bcf=bcf, shape=shape, records=len(recs), index_bytes=len(raw))
+        ctx.case(doc, nontrivial=True)
+        ctx.count("large-index")
+        m = ctx.model.call(900 if kind == "csi" else 901, list(raw))
+        r = real_parse(kind, ip)
+        if m != r:
+            ctx.fail(doc, dict(implementation=str(r)[:600], independent_decoding=str(m)[:600]),
+                     f"{kind} index of {len(raw)} bytes (more than one BGZF block) parsed differently from the byte-level decoding")
+        elif r[0] == 1:
+            with vcf_utils.IndexedVcf(p) as iv:
+                got = {k: v for k, v in iv.contig_record_counts().items() if v}
+            actual = {}
+            for v in cyvcf2.VCF(p):
+                actual[v.CHROM] = actual.get(v.CHROM, 0) + 1
+            if got != actual:
+                ctx.fail(doc, dict(reported=str(got)[:300], actual=str(actual)[:300]), "per-contig record counts differ from the records in the file (large index)")
+            ctx.traces_validated += 1
+        for q in (p, ip):
+            os.remove(q)
     # ---- (b) re-serialised variants through the model's independent serialiser --------
     for kind, m, doc0 in parsed_for_variants:
         for variant in ("same", "no_pseudo", "permuted", "no_tail", "tail"):
